@@ -93,6 +93,14 @@ theorem C03_end_token_line_safe (eol : List Char) (lead : List Triv) :
     Semi.lineSafe (EndToken.endLeading eol lead) = true :=
   LineSafe.endLeading_safe eol lead
 
+/-- the comments moved in front of a table field's key cannot swallow the key (each gets a line of its own), and with
+no comment *behind* a hung binary operator its rebuilt leading trivia cannot swallow the operator - the positive
+counterparts of the swallowing witnesses below -/
+theorem C03_moved_comments_line_safe (eol : List Char) (m s : Bool) (kl kt el et a b c : List Triv)
+    (hb : Semi.rawComments b = []) :
+    Semi.lineSafe (FieldKey.keyLeading eol m s kl kt el et) = true ∧ Semi.lineSafe (HangOp.hangBinop a b c).1 = true :=
+  ⟨LineSafe.keyLeading_safe eol m s kl kt el et, LineSafe.hang_safe a b c hb⟩
+
 /-! ## the semicolon: kept, added or removed (format_block) -/
 
 open StyluaModel.Semi in
